@@ -1,0 +1,32 @@
+//go:build verif
+// +build verif
+
+package renamer
+
+// Exports for the /verif correspondence harness (build tag "verif" only). Add-only.
+
+import "github.com/evanw/esbuild/internal/ast"
+
+// VerifAssignNames runs the real AssignNamesByFrequency on slots with the given use counts (namespace ns:
+// 0 default, 1 label, 2 private name, 3 mangled prop) and returns the name given to every slot.
+func VerifAssignNames(minifier ast.NameMinifier, reserved []string, ns int, counts []uint32, needsCapital []bool) []string {
+	res := map[string]uint32{}
+	for _, n := range reserved {
+		res[n] = 1
+	}
+	var first ast.SlotCounts
+	first[ns] = uint32(len(counts))
+	r := NewMinifyRenamer(ast.SymbolMap{}, first, res)
+	for i, c := range counts {
+		r.slots[ns][i].count = c
+		if needsCapital[i] {
+			r.slots[ns][i].needsCapitalForJSX = 1
+		}
+	}
+	r.AssignNamesByFrequency(&minifier)
+	out := make([]string, len(counts))
+	for i := range counts {
+		out[i] = r.slots[ns][i].name
+	}
+	return out
+}
